@@ -155,6 +155,7 @@ func (r *Router) match(method, path string) (rt *Route, ps Params) {
 		verifYield("cache.lookup")
 		route, ok := r.cachedRoutes.Get(method + path)
 		if ok {
+			verifYield("cache.hit")
 			return route, route.params
 		}
 	}
